@@ -1,7 +1,7 @@
 #!/bin/bash
 # MANIFEST.setup_cmd: builds everything the checks need from files on disk (offline).
 set -u
-cd /verif
+cd "$(dirname "$0")/.." || exit 2
 mkdir -p .cache evidence replays
 rm -f coq/Makefile coq/Makefile.conf
 tools/build_model.sh > .cache/setup_coq.log 2>&1
